@@ -20,6 +20,7 @@ def run(tier: str) -> int:
     scs, n = scenarios(tier, chk, 6000 if tier == "quick" else 60000)
     scns = [{"id": f"m{i}", "layout": s["layout"], "file": s["file"], "variant": i} for i, s in enumerate(scs)]
     recs = pmap(drv.exec_bms, scns)
+    recs += pmap(drv.exec_bundled, drv.bundled_scenarios(tier), chunk=1)
     rejects, consumed, wall = validate_traces("BMSTrace", "BMSTrace", recs, tag=f"c04-{tier}")
     chk.add_traces(recs, rejects)
     chk.nontrivial = len({str(x["file"]["lines"]) + x["layout"] for x in recs})
